@@ -194,11 +194,19 @@ impl Sub<f64> for ClockTime {
 				whole_ticks -= 1.0;
 			}
 		}
-		let ticks = self.ticks.saturating_sub(whole_ticks as u64);
+		let whole_ticks = whole_ticks as u64;
+		// subtracting more than the time itself saturates at zero
+		if whole_ticks > self.ticks {
+			return Self {
+				clock: self.clock,
+				ticks: 0,
+				fraction: 0.0,
+			};
+		}
 
 		Self {
 			clock: self.clock,
-			ticks,
+			ticks: self.ticks - whole_ticks,
 			fraction,
 		}
 	}
